@@ -179,10 +179,15 @@ class C13(Prop):
         fn_name = q["fn"]
         fn = getattr(sdn, fn_name)
         hier = fn_name in HIER
-        root = self.resolve_root(nl, q["root"])
+        rq = q["root"]
+        if hier and rq["kind"] not in ("netlist", "href") and rq["j"] % 2 == 0:
+            # patterns of the hierarchical getters are defined for netlist / instance-HRef roots:
+            # send half of the other draws there
+            rq = dict(rq, kind="netlist" if rq["i"] % 2 else "href")
+        root = self.resolve_root(nl, rq)
         roots = root
-        rk = q["root"]["kind"]
-        if q.get("root2"):
+        rk = rq["kind"]
+        if q.get("root2") and not (hier and q["root2"]["i"] % 3):
             roots = [root, self.resolve_root(nl, q["root2"])]
             rk = "collection"
         kw = {}
